@@ -602,6 +602,7 @@ struct LRReq {
   int start;
   unsigned eof;
   bool prefix;
+  bool precall = false;
 };
 static long g_lr_steps;
 static LRReq parseGrammar(const std::string &g) {
@@ -633,7 +634,8 @@ static LRReq parseGrammar(const std::string &g) {
   }
   r.start = std::stoi(parts[2]);
   r.eof = std::stoul(parts[3]);
-  r.prefix = parts[4] == "1";
+  r.prefix = parts[4] == "1" || parts[4] == "3";
+  r.precall = parts[4] == "2" || parts[4] == "3";
   return r;
 }
 static std::string symStr(const Grammar::Symbol &s) {
@@ -662,6 +664,12 @@ static void doLR(std::stringstream &ss) {
       if (f1) first += "-";
     }
     if (first.empty()) first = "-";
+  }
+  // a legal order of API calls: the caller looks at the FIRST sets of its own grammar object (once or twice) before
+  // it hands that object to the parser generator
+  if (r.precall) {
+    r.G.calculateFirstSets();
+    r.G.calculateFirstSets();
   }
   LRParser<std::string, int> p(
       r.G, r.prefix, [](int t) { return Grammar::Symbol::Terminal(t); },
